@@ -156,6 +156,7 @@ struct SSCfg {
     bool useParam = false;           // declares top-level params P1 (string) P2 (number)
     bool stripSpace = false;
     bool docFn = false;              // document('aux.xml')
+    std::string sortLang = "de", sortCase;   // "sortlang" feature: lang and case-order ("" = absent)
 };
 
 struct GenSS {
@@ -170,7 +171,7 @@ inline const std::vector<std::string>& allFeatures() {
         "name", "counts", "strval", "axes", "revaxes", "pos", "key", "keyids", "id", "num-single", "num-multi", "num-any", "num-nocount",
         "fmtnum", "fmtnum-df", "arith", "strfn", "copyof", "copy", "rtf", "nodeset", "calltmpl", "choose", "elemattr", "attrset",
         "lre", "message", "modes", "sort2", "comment-pi", "exslt-set", "exslt-math", "exslt-str", "genid", "lang", "sysprop", "param", "ifbool",
-        "union", "preds", "valnum", "apply-imports", "text-nodes", "ns-axis", "doctype-node", "attr-nodes", "number-value", "bigfmt", "xalan-ext", "docfn", "avt-ns", "extfn", "paramuse"
+        "union", "preds", "valnum", "apply-imports", "text-nodes", "ns-axis", "doctype-node", "attr-nodes", "number-value", "bigfmt", "xalan-ext", "docfn", "avt-ns", "extfn", "paramuse", "gate", "num-gate", "sortlang", "num-value", "lazyvar"
     };
     return f;
 }
@@ -231,6 +232,12 @@ struct SSGen {
         if (on("param")) { perNode += "<xsl:if test=\"not(ancestor::*)\">" + o("param", vo("$P1") + "|" + vo("$P2 + 1") + "|" + vo("string-length($P1)")) + "</xsl:if>"; }
         if (on("extfn")) perNode += "<xsl:if test=\"function-available('ext:sq')\">" + o("extfn", vo("ext:sq(@v)") + "," + vo("ext:sq(count(*))")) + "</xsl:if>";
         if (on("paramuse")) perNode += o("paramuse", vo("concat($P1, '/', @k)") + "|" + vo("$P2 * 2") + "|" + vo("boolean($P1)"));
+        // a lazily evaluated global variable whose body aborts the transformation when the parameter P1 is 'abort'
+        if (on("gate")) perNode += "<xsl:if test=\"count(preceding::*) mod 3 = 1\">" + o("gate", vo("$GATE")) + "</xsl:if>";
+        if (on("num-gate")) perNode += o("num-gate", "<xsl:number level=\"any\" count=\"*[not(@zz) or $GATE = 'x']\"/>|<xsl:number level=\"single\" count=\"*[@k or $GATE = 'x']\"/>");
+        if (on("lazyvar")) perNode += "<xsl:if test=\"@v &gt; 30\">" + o("lazyvar", vo("$LAZY1") + "," + vo("count($LAZY2)")) + "</xsl:if>";
+        if (on("sortlang")) perNode += "<o f=\"sortlang\" n=\"{@id}\"><xsl:for-each select=\"*\"><xsl:sort select=\"substring('aAbBcC', (count(@*) + string-length(@rk)) mod 6 + 1, 1)\" lang=\"" + c.sortLang + "\"" + (c.sortCase.empty() ? std::string() : " case-order=\"" + c.sortCase + "\"") + "/><xsl:value-of select=\"concat(substring('aAbBcC', (count(@*) + string-length(@rk)) mod 6 + 1, 1), @id, ' ')\"/></xsl:for-each></o>";
+        if (on("num-value")) perNode += o("num-value", "<xsl:number value=\"count(preceding::*) div 2\"/>|<xsl:number value=\"(count(preceding::*) + 1) div 4\" format=\"a\"/>|<xsl:number value=\"count(*) + 0.5\" format=\"I\"/>|<xsl:number value=\"@v * 1.5\" format=\"01\"/>");
         if (on("ifbool")) perNode += "<o f=\"ifbool\" n=\"{@id}\"><xsl:if test=\"*\">K</xsl:if><xsl:if test=\"@v\">V</xsl:if><xsl:if test=\"string(@k)\">S</xsl:if><xsl:if test=\"number(@v)\">N</xsl:if><xsl:if test=\"@v = */@v\">E</xsl:if><xsl:if test=\"@v != */@v\">D</xsl:if><xsl:if test=\"*/@v &gt; 10\">G</xsl:if><xsl:if test=\"@k = 'k1' or @k = 'k2' and @v &gt; 3\">P</xsl:if></o>";
         if (on("union")) perNode += "<o f=\"union\" n=\"{@id}\"><xsl:for-each select=\"following-sibling::*[1] | preceding-sibling::*[1] | .. | * | @k\"><xsl:value-of select=\"concat(name(), ':', @id, ' ')\"/></xsl:for-each></o>";
         if (on("preds")) perNode += o("preds", vo("*[2]/@id") + "," + vo("*[last()]/@id") + "," + vo("*[@v][1]/@id") + "," + vo("*[position() &gt; 1][@k='k1']/@id") + "," + vo("(//*)[5]/@id") + "," + vo("descendant::*[3]/@id") + "," + vo("ancestor-or-self::*[last()]/@id") + "," + vo("preceding::*[1]/@id") + "," + vo("(preceding::*)[1]/@id") + "," + vo("../*[@id = current()/@id]/@rk"));
@@ -271,8 +278,10 @@ struct SSGen {
             out.resources["inc1.xsl"] = "<?xml version=\"1.0\"?><xsl:stylesheet version=\"1.0\" xmlns:xsl=\"http://www.w3.org/1999/XSL/Transform\"><xsl:template name=\"incT\"><xsl:param name=\"x\"/>inc[<xsl:value-of select=\"$x\"/>]</xsl:template></xsl:stylesheet>";
         }
         if (c.stripSpace) s += "<xsl:strip-space elements=\"*\"/><xsl:preserve-space elements=\"p item\"/>\n";
-        if (c.useParam || c.on.count("param") || c.on.count("paramuse")) s += "<xsl:param name=\"P1\" select=\"'dflt'\"/><xsl:param name=\"P2\" select=\"40\"/>\n";
+        if (c.useParam || c.on.count("param") || c.on.count("paramuse") || c.on.count("gate") || c.on.count("num-gate")) s += "<xsl:param name=\"P1\" select=\"'dflt'\"/><xsl:param name=\"P2\" select=\"40\"/>\n";
         s += "<xsl:variable name=\"G1\" select=\"count(//*)\"/>\n";
+        if (c.on.count("gate") || c.on.count("num-gate")) s += "<xsl:variable name=\"GATE\"><xsl:if test=\"$P1 = 'abort'\"><xsl:message terminate=\"yes\">gate closed</xsl:message></xsl:if><xsl:if test=\"$P1 = 'badkey'\"><xsl:value-of select=\"count(key('nosuchkey', 1))\"/></xsl:if>open</xsl:variable>\n";
+        if (c.on.count("lazyvar")) s += "<xsl:variable name=\"LAZY1\" select=\"sum(//@v[. &gt; 0])\"/><xsl:variable name=\"LAZY2\" select=\"//*[@k][position() &lt; 4]\"/>\n";
         if (c.docFn) out.resources["aux.xml"] = "<?xml version=\"1.0\"?><aux><x id=\"x1\">one</x><x id=\"x2\">two</x><y><x id=\"x3\">three</x></y></aux>";
         s += top + "\n";
         s += "<xsl:template match=\"/\"><out total=\"{$G1}\">" + rootBody;
